@@ -9,6 +9,8 @@ Init == l = 1 /\ bad = "" /\ c10 = ""
 Set(v, cond, msg) == IF cond /\ v = "" THEN msg ELSE v
 ToSet(s) == {s[i] : i \in 1..Len(s)}
 
+ExpectedAtClient(e) == IF e.err = "fx:0" /\ e.wrap = "bare" /\ e.via # "cmd" THEN "novalue" ELSE ClientSees(e.err, e.wrap)
+
 Step(e) ==
   CASE e.ev = "Reset" -> c10' = "" /\ UNCHANGED bad
     [] e.ev = "AdPath" ->
@@ -29,8 +31,10 @@ Step(e) ==
                        ELSE "the matching handler was not invoked exactly once with the expected method")
          /\ UNCHANGED bad
     [] e.ev = "AdError" ->
-         /\ c10' = Set(c10, e.got # ClientSees(e.err, e.wrap) \/ ~e.textok,
-                       IF e.got # ClientSees(e.err, e.wrap) THEN "a handler error did not reach the client unchanged in kind"
+         \* a handler that answers a request for a value (open, stat) with the status code SSH_FX_OK delivers no value:
+         \* the code travels as itself (STATUS OK on the wire) and the Client reports the missing value as an error
+         /\ c10' = Set(c10, e.got # ExpectedAtClient(e) \/ ~e.textok,
+                       IF e.got # ExpectedAtClient(e) THEN "a handler error did not reach the client unchanged in kind"
                        ELSE "a failure did not carry the text of the handler's error")
          /\ UNCHANGED bad
     [] e.ev \in {"Req", "Resp", "Setup", "ServeRet", "ConnClose", "PmFini", "Note", "Handler", "ObjOpen", "ObjClose", "OpBegin", "OpEnd", "ObjFinal", "ObjTErr",
